@@ -32,11 +32,14 @@ func (P *Prog) ecdsaHelpers() (enc, dec *ssa.Function) {
 			dec = fn
 		}
 	}
-	if enc == nil || dec == nil {
-		undecidedf("anchor not found: ECDSA signature encode/decode helpers")
+	if enc == nil && !ecdsaHelpersOptional {
+		undecidedf("anchor not found: ECDSA signature encode helper")
 	}
 	return
 }
+
+// ecdsaHelpersOptional: set while a rule that can do without the helpers looks them up.
+var ecdsaHelpersOptional = false
 
 func runC16(r *Report, tier string) {
 	P := r.P
@@ -46,7 +49,10 @@ func runC16(r *Report, tier string) {
 	r.assumes("crypto/ecdsa.Verify performs the range checks on r and s; math/big FillBytes/SetBytes are big-endian")
 
 	enc, dec := P.ecdsaHelpers()
-	r.analysed(enc, dec)
+	r.analysed(enc)
+	if dec != nil {
+		r.analysed(dec)
+	}
 	nPat := strings.Replace(orderBytesPat, "%CURVE", "$0", 1)
 	two := "binop<*>(" + nPat + ", 2)"
 	buf := "makeslice<[]byte>(" + two + ", " + two + ")"
@@ -197,10 +203,52 @@ func runC16(r *Report, tier string) {
 // checkECDSAStrictDecode: R16.3 (also part of C03: any change of the signature bytes must change (r, s) or be refused).
 func checkECDSAStrictDecode(r *Report, rule string) {
 	P := r.P
-	enc, dec := P.ecdsaHelpers()
-	_ = enc
+	ecdsaHelpersOptional = true
+	_, dec := P.ecdsaHelpers()
+	ecdsaHelpersOptional = false
 	nPat := strings.Replace(orderBytesPat, "%CURVE", "$0", 1)
 	nP2 := strings.Replace(orderBytesPat, "%CURVE", "$0", 1)
+	// site-based: wherever a built-in verifier hands (r, s) to ecdsa.Verify,
+	// the exact-length fact for the key's own curve holds and r, s are the
+	// big-endian integers of the two halves of the signature parameter
+	nSites := 0
+	for _, fn := range P.builtinVerifierMethods() {
+		for _, ci := range callsIn(fn, nil) {
+			if c := staticCallee(ci); c == nil || c.String() != "crypto/ecdsa.Verify" {
+				continue
+			}
+			nSites++
+			a := ci.Common().Args
+			sig := "$" + itoa(int64(len(fn.Params)-1))
+			fs := P.factsBefore(ci)
+			N := strings.Replace(orderBytesPat, "%CURVE", "%C", 1)
+			ms := fs.matchAll([]factPat{fp("binop<==>(binop<*>(" + N + ", 2), len(" + sig + "))")}, nil)
+			okLen := false
+			var curve *Term
+			for _, b := range ms {
+				cs := b["C"].String()
+				if strings.HasPrefix(cs, "**$0.") && strings.HasSuffix(cs, ".Curve") {
+					okLen, curve = true, b["C"]
+				}
+			}
+			half := func(v ssa.Value, pat string) bool {
+				if !okLen {
+					return false
+				}
+				t := P.terms.expand(P.terms.of(v), 4)
+				pat = strings.Replace(pat, "%N", N, -1)
+				b, ok := unify(mustPat("call<(*math/big.Int).SetBytes>(%A, "+pat+")"), t, bindings{"C": curve})
+				return ok && b["A"].Op == "alloc"
+			}
+			okR := half(a[2], "slice("+sig+", _(), %N, _())")
+			okS := half(a[3], "slice("+sig+", %N, _(), _())")
+			r.ob(rule, shortFn(fn)+":strict-at-verify", fn, ci, "at ecdsa.Verify: len(signature) == 2n for the key's own curve, r = big-endian(signature[:n]), s = big-endian(signature[n:])").check(okLen && okR && okS, "len == 2n, r||s split at n", fmt.Sprintf("exact-length fact for the key's curve before ecdsa.Verify: %v; r is the integer of signature[:n]: %v; s of signature[n:]: %v", okLen, okR, okS))
+		}
+	}
+	r.floor(rule, nSites, 1, "ecdsa.Verify call sites in built-in verifiers")
+	if dec == nil {
+		return
+	}
 	for _, x := range P.factsOf(dec).exits {
 		if x.kind == exitFailure {
 			continue
